@@ -8,7 +8,7 @@ from vmon import gen, prog
 from vmon.snap import state_key
 
 LEVEL = "exploration"
-RULE = ("seven workloads interleaved by case index: (norm+agree) generated 1-3 atom sequences run on the legacy emulator and "
+RULE = ("eight workloads interleaved by case index (incl. V2 runs with stochastic + dissipative noise whose averaged density matrices must stay physical): (norm+agree) generated 1-3 atom sequences run on the legacy emulator and "
         "the V2 backend at several evaluation times: every state normalised, V2 state == legacy state; (dissipative) "
         "dephasing / relaxation / depolarizing / effective noise: unit trace, Hermitian, positive; (rabi) constant resonant "
         "pulse vs the analytic interval; (idle) zero drive leaves the initial state and product basis states sample to "
@@ -22,7 +22,7 @@ TIERS = {"quick": dict(cases=420, shards=8, case_timeout=300, shard_timeout=1500
          "thorough": dict(cases=4200, shards=16, case_timeout=300, shard_timeout=3400)}
 FLOORS = {"quick": {"states_norm_checked": 300, "v1_v2_states_compared": 100, "density_matrices_checked": 100,
                     "rabi_checked": 30, "bitstring_conventions_checked": 60, "detection_error_checks": 20,
-                    "sweep_runs": 600},
+                    "sweep_runs": 500, "v2_noisy_density_matrices_checked": 60},
           "thorough": {"sweep_runs": 6000}}
 WEIGHTS = {"sample": 0, "str": 0, "to_abstract_repr": 0, "build_copy": 0, "queries": 0, "get_duration": 0,
            "estimate_added_delay": 0, "is_in_eom_mode": 0, "current_phase_ref": 0, "measure": 0.0, "add": 12,
@@ -382,7 +382,63 @@ def w_sweep(ctx, rng, idx, tier):
             ctx.violation("eval-times", "number of stored states differs from the number of times", "eval-times:count")
 
 
+def w_v2_noisy(ctx, rng, idx):
+    """V2 backend with stochastic (state preparation / doppler / amplitude) and dissipative noise: averaged density matrices."""
+    import pulser
+    from pulser.backend.default_observables import StateResult
+    from pulser_simulation import QutipBackendV2, QutipConfig
+
+    k = idx // 8
+    stoch = ["spam", "spam", "doppler", "amplitude", "spam+doppler"][k % 5]
+    diss = [None, "dephasing", "relaxation", "depolarizing"][(k // 5) % 4]
+    n = 1 + (k // 20) % 2
+    kw = {"runs": gen.pick(rng, [6, 12]), "samples_per_run": 1}
+    if "spam" in stoch:
+        kw.update(state_prep_error=gen.pick(rng, [0.1, 0.3, 0.5]), p_false_pos=0.0, p_false_neg=0.0)
+    if "doppler" in stoch:
+        kw.update(temperature=gen.pick(rng, [20.0, 50.0]))
+    if stoch == "amplitude":
+        kw.update(amp_sigma=0.05, laser_waist=gen.pick(rng, [None, 150.0]))
+        if kw["laser_waist"] is None:
+            kw.pop("laser_waist")
+    if diss == "dephasing":
+        kw.update(dephasing_rate=gen.pick(rng, [0.2, 1.5]), hyperfine_dephasing_rate=1e-3)
+    elif diss == "relaxation":
+        kw.update(relaxation_rate=gen.pick(rng, [0.1, 1.0]))
+    elif diss == "depolarizing":
+        kw.update(depolarizing_rate=gen.pick(rng, [0.2, 1.0]))
+    D = gen.pick(rng, [100, 252])
+    ctx.case = {"v2_noisy": {"stochastic": stoch, "dissipative": diss, "n": n, "D": D, "params": {a: b for a, b in kw.items()}}}
+    seq = one_pulse(D, omega=gen.pick(rng, [2.0, 5.0]), det=gen.pick(rng, [0.0, 1.0]), n=n)
+    try:
+        with warnings.catch_warnings():
+            warnings.simplefilter("ignore")
+            np.random.seed(idx)
+            nm = pulser.NoiseModel(**kw)
+            res = QutipBackendV2(seq, config=QutipConfig(observables=[StateResult(evaluation_times=[0.5, 1.0])],
+                                                         noise_model=nm)).run()
+    except Exception as e:
+        ctx.violation("v2-raises", f"V2 with {stoch}+{diss} raised {type(e).__name__}: {str(e)[:200]}",
+                      f"v2-raises:noisy:{type(e).__name__}")
+        return
+    for st in res.state:
+        rho = np.asarray(st.to_qobj().full())
+        if rho.shape[1] == 1:
+            rho = rho @ rho.conj().T
+        ctx.count("v2_noisy_density_matrices_checked")
+        tr = np.trace(rho)
+        if abs(tr - 1) > 1e-5:
+            ctx.violation("trace", f"V2 {stoch}+{diss}: Tr rho = {tr!r}", "trace:v2-averaged")
+        if np.max(np.abs(rho - rho.conj().T)) > 1e-8:
+            ctx.violation("hermitian", f"V2 {stoch}+{diss}: rho not Hermitian", "rho-not-hermitian:v2")
+        if np.linalg.eigvalsh((rho + rho.conj().T) / 2).min() < -1e-6:
+            ctx.violation("positive", f"V2 {stoch}+{diss}: rho not positive", "rho-not-positive:v2")
+    ctx.mark_nontrivial(("v2noisy", stoch, diss, n, D))
+
+
 def run_case(ctx, idx, rng, tier):
+    if idx % 8 == 7:
+        return w_v2_noisy(ctx, rng, idx)
     w = idx % 7
     if w == 0:
         w_norm_agree(ctx, rng, idx)
